@@ -5,6 +5,20 @@ COMMON_NOTE = ("Trusted base: Lean 4.33 kernel; axioms ⊆ {propext, Classical.c
                "generated tables (harness/gen_tables.py). ")
 
 CLAIMED = {
+    "C19": {
+        "text": "Theorems (Lean, unbounded: any number of contenders, every interleaving incl. deaths and clock jumps). Local lock: flock_mutex — "
+                "at most one FileLock instance believes it holds the lock and that belief is backed by a kernel flock on the inode the path "
+                "names; death_releases; timeout_bound — success only through a successful flock, TimeoutError exactly once the deadline has "
+                "passed with the lock busy; no_success_while_held; unlink_breaks_mutex (why the file is never unlinked). S3 CAS lock: "
+                "takeover_only_after_lease; superseded_observes_loss; held_answer_sound; owned_object_persists_partial (conditional delete) and "
+                "owned_object_persists_refuted — the machine-checked witness of the release-spans-takeover defect, replayed on the real "
+                "S3LockProvider (known finding). Tie: real FileLock instances on the REAL kernel and the real S3LockProvider on the in-memory S3 "
+                "run under the scheduler with a virtual clock and are compared step by step with lock.frun / lock.srun; 8-process stress.",
+        "design_ref": "§6 C19",
+        "note": "Kernel flock semantics are an assumed contract sampled every run on the real kernel; the S3 heartbeat thread is replaced by a "
+                "schedulable renew event; the polling (non-CAS) provider is documented best-effort and not claimed.",
+        "technique": "Lean 4 invariants over two lock transition systems + step-by-step correspondence with the real lock classes",
+    },
     "C01": {
         "text": "Theorems (Lean, unbounded: any number of committers, every interleaving of their storage-level steps, any clock incl. 0-ms "
                 "ticks and stale readings, data and metadata-only commits): serial — every pointer flip replaced exactly the version its new "
